@@ -804,6 +804,12 @@ func deferPhase(c *ev.Ctx) {
 			r.Check = ck
 			s.apply(structs.RegisterRequestType, &r)
 		}},
+		// the service and its check are deregistered and registered again with a changed definition before anything is synced
+		// (what is pending for the old check - a deferral timer - must not leak into the new one)
+		{"remove s1 with c1 and register them again on port 81", func(s *sys) {
+			s.removeSvc("s1")
+			s.addSvc(svc("s1", 81), "", chk("c1", "s1", "passing"))
+		}},
 	}
 	depth := 4
 	if !c.Quick() {
